@@ -369,4 +369,126 @@ Proof.
   - exists x'. split; [exact E|]. repeat split; auto. intros c Hc. apply P'. lia.
 Qed.
 
+(* ---- the forward substitutions inlined in a_real_ldl_inv(_) / a_real_llt_inv(_): the right-hand
+   side is the unit vector e_i, so the loops start at row i and column i ---- *)
+Definition dlt (r i : nat) : R := if Nat.eqb r i then 1 else 0.
+
+Definition fwd_unit_gen (i : nat) (L y : list R) : option (list R) :=
+  for_range i n (fun r y =>
+    for_range i r (fun c y =>
+      do yr <- rd y (ix r); do a <- rd L (n * r + c); do yc <- rd y (ix c);
+      wr y (ix r) (sub RO yr (mul RO a yc))) y) y.
+
+Lemma fwd_unit_gen_spec i (L y : list R) :
+  length L = (n * n)%nat -> vec_ok y -> (i < n)%nat ->
+  (forall r, (r < n)%nat -> vg y r = dlt r i) ->
+  exists y', fwd_unit_gen i L y = Some y' /\ length y' = length y /\
+    (forall k, off_vec k -> nth k y' 0 = nth k y 0) /\
+    forall r, (r < n)%nat -> vg y' r = dlt r i - isum (fun c => mg n L r c * vg y' c) 0 r.
+Proof.
+  intros LL Hok Hi Hy. unfold fwd_unit_gen.
+  destruct (for_range_inv
+              (fun k (y' : list R) =>
+                 length y' = length y /\ (forall j, off_vec j -> nth j y' 0 = nth j y 0) /\
+                 (forall r, (r < i)%nat -> vg y' r = 0) /\
+                 (forall r, (k <= r < n)%nat -> vg y' r = dlt r i) /\
+                 (forall r, (i <= r < k)%nat -> vg y' r = dlt r i - isum (fun c => mg n L r c * vg y' c) i r))
+              i n
+              (fun r y => for_range i r (fun c y =>
+                 do yr <- rd y (ix r); do a <- rd L (n * r + c); do yc <- rd y (ix c);
+                 wr y (ix r) (sub RO yr (mul RO a yc))) y) y) as (y' & E & L' & F' & Z' & _ & P').
+  - lia.
+  - repeat split; auto.
+    + intros r Hr. rewrite Hy by lia. unfold dlt. destruct (Nat.eqb_spec r i); [lia|reflexivity].
+    + intros r Hr. apply Hy. lia.
+    + intros; lia.
+  - intros k y1 Hk (L1 & F1 & Z1 & U1 & D1).
+    destruct (axpy_loop L (fun c => (n * k + c)%nat) (fun c => mg n L k c) k i k y1) as (y2 & E2 & L2 & F2 & V2); auto.
+    + intros c Hc. apply (rd_mg n); auto; lia.
+    + lia.
+    + intros c Hc. lia.
+    + eapply vec_ok_len; eauto.
+    + exists y2. split; [exact E2|]. split; [congruence|]. split; [|split; [|split]].
+      * intros j Hj. rewrite F2 by (apply Hj; lia). auto.
+      * intros r Hr. rewrite (vg_frame y1 y2 k r) by (auto; lia). auto.
+      * intros r Hr. rewrite (vg_frame y1 y2 k r) by (auto; lia). apply U1. lia.
+      * intros r Hr. destruct (Nat.eq_dec r k) as [->|N].
+        -- rewrite V2. rewrite U1 by lia. f_equal. apply isum_ext. intros c Hc.
+           rewrite (vg_frame y1 y2 k c) by (auto; lia). reflexivity.
+        -- rewrite (vg_frame y1 y2 k r) by (auto; lia). rewrite D1 by lia. f_equal.
+           apply isum_ext. intros c Hc. rewrite (vg_frame y1 y2 k c) by (auto; lia). reflexivity.
+  - exists y'. split; [exact E|]. split; auto. split; auto.
+    intros r Hr. destruct (le_lt_dec i r) as [Hir|Hri].
+    + rewrite P' by lia. f_equal. symmetry. apply isum_skip; auto.
+      intros c Hc. rewrite Z' by auto. lra.
+    + rewrite Z' by auto. unfold dlt. destruct (Nat.eqb_spec r i); [lia|].
+      rewrite isum_0. rewrite rsum_zero; [lra|]. intros c Hc. rewrite Z' by lia. lra.
+Qed.
+
+Definition fwd_div_gen (i : nat) (L y : list R) : option (list R) :=
+  for_range i n (fun r y =>
+    do y' <- for_range i r (fun c y =>
+               do yr <- rd y (ix r); do a <- rd L (n * r + c); do yc <- rd y (ix c);
+               wr y (ix r) (sub RO yr (mul RO a yc))) y;
+    do yr <- rd y' (ix r); do a <- rd L (n * r + r);
+    wr y' (ix r) (div RO yr a)) y.
+
+Lemma fwd_div_gen_spec i (L y : list R) :
+  length L = (n * n)%nat -> vec_ok y -> (i < n)%nat ->
+  (forall r, (r < n)%nat -> vg y r = dlt r i) ->
+  exists y', fwd_div_gen i L y = Some y' /\ length y' = length y /\
+    (forall k, off_vec k -> nth k y' 0 = nth k y 0) /\
+    forall r, (r < n)%nat -> vg y' r = (dlt r i - isum (fun c => mg n L r c * vg y' c) 0 r) / mg n L r r.
+Proof.
+  intros LL Hok Hi Hy. unfold fwd_div_gen.
+  destruct (for_range_inv
+              (fun k (y' : list R) =>
+                 length y' = length y /\ (forall j, off_vec j -> nth j y' 0 = nth j y 0) /\
+                 (forall r, (r < i)%nat -> vg y' r = 0) /\
+                 (forall r, (k <= r < n)%nat -> vg y' r = dlt r i) /\
+                 (forall r, (i <= r < k)%nat ->
+                    vg y' r = (dlt r i - isum (fun c => mg n L r c * vg y' c) i r) / mg n L r r))
+              i n
+              (fun r y =>
+                 do y' <- for_range i r (fun c y =>
+                            do yr <- rd y (ix r); do a <- rd L (n * r + c); do yc <- rd y (ix c);
+                            wr y (ix r) (sub RO yr (mul RO a yc))) y;
+                 do yr <- rd y' (ix r); do a <- rd L (n * r + r);
+                 wr y' (ix r) (div RO yr a)) y) as (y' & E & L' & F' & Z' & _ & P').
+  - lia.
+  - repeat split; auto.
+    + intros r Hr. rewrite Hy by lia. unfold dlt. destruct (Nat.eqb_spec r i); [lia|reflexivity].
+    + intros r Hr. apply Hy. lia.
+    + intros; lia.
+  - intros k y1 Hk (L1 & F1 & Z1 & U1 & D1).
+    destruct (axpy_loop L (fun c => (n * k + c)%nat) (fun c => mg n L k c) k i k y1) as (y2 & E2 & L2 & F2 & V2); auto.
+    + intros c Hc. apply (rd_mg n); auto; lia.
+    + lia.
+    + intros c Hc. lia.
+    + eapply vec_ok_len; eauto.
+    + rewrite E2.
+      destruct (div_at L (n * k + k)%nat (mg n L k k) k y2) as (y3 & E3 & L3 & F3 & V3); auto.
+      * apply (rd_mg n); auto; lia.
+      * lia.
+      * eapply vec_ok_len; [|exact Hok]. congruence.
+      * exists y3. split; [exact E3|]. split; [congruence|].
+        assert (Hfr : forall c, (c < n)%nat -> c <> k -> vg y3 c = vg y1 c).
+        { intros c Hc Nc. rewrite (vg_frame y2 y3 k c), (vg_frame y1 y2 k c) by (auto; lia). reflexivity. }
+        split; [|split; [|split]].
+        -- intros j Hj. rewrite F3, F2 by (apply Hj; lia). auto.
+        -- intros r Hr. rewrite Hfr by lia. auto.
+        -- intros r Hr. rewrite Hfr by lia. apply U1. lia.
+        -- intros r Hr. destruct (Nat.eq_dec r k) as [->|N].
+           ++ rewrite V3, V2. rewrite U1 by lia. f_equal. f_equal.
+              apply isum_ext. intros c Hc. rewrite Hfr by lia. reflexivity.
+           ++ rewrite Hfr by lia. rewrite D1 by lia. f_equal. f_equal.
+              apply isum_ext. intros c Hc. rewrite Hfr by lia. reflexivity.
+  - exists y'. split; [exact E|]. split; auto. split; auto.
+    intros r Hr. destruct (le_lt_dec i r) as [Hir|Hri].
+    + rewrite P' by lia. f_equal. f_equal. symmetry. apply isum_skip; auto.
+      intros c Hc. rewrite Z' by auto. lra.
+    + rewrite Z' by auto. unfold dlt. destruct (Nat.eqb_spec r i); [lia|].
+      rewrite isum_0. rewrite rsum_zero; [unfold Rdiv; lra|]. intros c Hc. rewrite Z' by lia. lra.
+Qed.
+
 End Solve.
